@@ -73,7 +73,18 @@ Fixpoint spec_loop (m : mods) (name : option N) (toks : list tk) {struct toks}
             else
             match name with
             | Some _ => finish
-            | None => if memN (kty t) pqname_start_tokens then DErr 4 else finish
+            | None =>
+                if memN (kty t) fundamentals then
+                  (* _parse_pqname_fundamental: a compound keyword takes the compound keywords that follow *)
+                  if memN (kty t) compound_fundamentals then
+                    (fix grp (l : list tk) (ws : list N) {struct l} : dres (mods * N * list tk) :=
+                       match l with
+                       | t2 :: r2 => if memN (kty t2) compound_fundamentals then grp r2 (ws ++ [kty t2])
+                                     else spec_loop m (Some (fund_code ws)) l
+                       | [] => spec_loop m (Some (fund_code ws)) l
+                       end) r [kty t]
+                  else spec_loop m (Some (fund_code [kty t])) r
+                else if memN (kty t) pqname_start_tokens then DErr 4 else finish
             end
         end
   | [] => DErr 2                                            (* get_token() at end of input *)
